@@ -31,6 +31,7 @@ META = {
     "note": "trusted: CPython, the harness in /verif/vf (vt.py sources, seqref.py simulator), VirtualTimeScheduler's queue discipline "
     "(checked by C28/C29); the thread part: controlled primitives of vf/ilv.py, preemption at sync operations and line boundaries of the focus files",
 }
+META["text"] += "; thread part: merge_all, flat_map, merge(max_concurrent=1,2), concat_map with the outer sequence and every inner on their own threads, every interleaving up to the preemption bound: exactly the emitted elements in per-inner order, every handed-out inner started, completion after all, at most max_concurrent subscribed"
 RULE = (
     "all (operator form, max_concurrent, arrival pattern, outer terminal, inner timeline tuple) combinations within the bounds; "
     "non-trivial = by the reference >=2 inner subscriptions are opened and >=1 element is forwarded; distinct = the full descriptor; the counter "
